@@ -302,6 +302,8 @@ def selfies_code_objects():
     return out
 
 
+_MUTATORS = ("setdefault", "append", "add", "update", "pop", "popitem", "clear", "insert", "extend", "remove",
+             "discard", "appendleft", "popleft")
 _CTA = {}      # code -> {offset: ("check" | "act", global name)}, filled by compute_shared_sites
 
 
@@ -408,6 +410,22 @@ def compute_shared_sites(codes):
                 d[ins.offset] = ("act", ins.argval)
                 for o in loaded[ins.argval]:
                     d.setdefault(o, ("check", ins.argval))
+        # an update that spans two shared containers (`_A[k] = x` ... `_B[k2] = y`): between writing
+        # the first and touching the second the pair is inconsistent.  The load of the second
+        # container after a write to the first is the "act2" point (keyed by the first), every load
+        # of a shared container is a "check" of it
+        written = None                 # the shared container this function has written to so far
+        for k, ins in enumerate(seq):
+            if ins.opname == "LOAD_GLOBAL" and isinstance(g.get(ins.argval), mutable):
+                d = _CTA.setdefault(co, {})
+                if written is not None and ins.argval != written and ins.offset not in d:
+                    d[ins.offset] = ("act2", written)
+                else:
+                    d.setdefault(ins.offset, ("check", ins.argval))
+                nxt = seq[k + 1:k + 4]
+                if any(x.opname in ("STORE_SUBSCR", "DELETE_SUBSCR") for x in nxt) or (
+                        nxt and nxt[0].opname in ("LOAD_ATTR", "LOAD_METHOD") and nxt[0].argval in _MUTATORS):
+                    written = ins.argval
         if co in mutable_default_codes:
             offs.add(2)                   # a function with a mutable default argument
         if co in wrapped:
@@ -551,7 +569,7 @@ class Sched:
         self._held_keys = set()
         self._release_after = {}        # thread that just passed the check -> thread to wake next
         self.holds_fired = 0
-        self._hold_on = bool(policy.get("hold")) and policy["kind"] == "shared" and explicit is None
+        self._hold_on = bool(policy.get("hold")) and policy["kind"] in ("shared", "random", "window") and explicit is None
         self.shared_switches = 0
         self._hot = {}
         self.stalls_fired = 0
@@ -666,10 +684,16 @@ class Sched:
         has tested (`if _X is None: _X = make()`) is parked in front of the store until another
         thread has made the same test - or nobody else can run - and is then woken at once, so that
         both act on the stale test.  Works at instruction granularity whatever the run's own."""
-        t = self._release_after.pop(tid, None)
-        if t is not None and t in self._held and self.alive[t] and self.blocked[t] is None:
-            del self._held[t]
-            return t
+        ra = self._release_after.get(tid)
+        if ra is not None:
+            if ra[1] > 0:
+                ra[1] -= 1
+            else:
+                del self._release_after[tid]
+                t = ra[0]
+                if t in self._held and self.alive[t] and self.blocked[t] is None:
+                    del self._held[t]
+                    return t
         ent = _CTA.get(code)
         if ent is None:
             return None
@@ -677,7 +701,11 @@ class Sched:
         if ent is None:
             return None
         key = (code.co_filename, ent[1])
-        if ent[0] == "act":
+        if ent[0] == "act2":
+            # about to touch a second shared container after a first one: parked until another
+            # thread has looked at the first one and gone on for a while (the two are inconsistent)
+            key = ("2",) + key
+        if ent[0] in ("act", "act2"):
             if self._holds[tid] < 2 and key not in self._held_keys:
                 cands = [c for c in self.runnable(exclude=tid) if c not in self._held]
                 if cands:
@@ -687,10 +715,14 @@ class Sched:
                     self.holds_fired += 1
                     return self.rng.choice(cands)
         else:
-            for t, k in self._held.items():
-                if k == key and t != tid:
-                    self._release_after[tid] = t
-                    break
+            if tid not in self._release_after:
+                for t, k in self._held.items():
+                    if t != tid and k == key:
+                        self._release_after[tid] = [t, 0]
+                        break
+                    if t != tid and k == ("2",) + key:
+                        self._release_after[tid] = [t, self.policy.get("hold_delay", 40)]
+                        break
         return None
 
     def decide(self, tid, code):
